@@ -663,6 +663,9 @@ where
 
     fn resolve_string_or_union_strings_unguarded(&self, ty: &TsType) -> Vec<Atom> {
         match ty {
+            TsType::TsParenthesizedType(TsParenthesizedType { type_ann, .. }) => {
+                self.resolve_string_or_union_strings(type_ann)
+            }
             TsType::TsLitType(TsLitType {
                 lit: TsLit::Str(key),
                 ..
@@ -718,7 +721,22 @@ where
     }
 
     fn resolve_indexed_access_unguarded(&self, obj: &TsType, index: &TsType) -> Option<TsType> {
+        // parentheses mean nothing: `(string[])[number]`, `T[("a")]`
+        if let TsType::TsParenthesizedType(TsParenthesizedType { type_ann, .. }) = index {
+            return self.resolve_indexed_access_unguarded(obj, type_ann);
+        }
         match obj {
+            TsType::TsParenthesizedType(TsParenthesizedType { type_ann, .. }) => {
+                self.resolve_indexed_access_unguarded(type_ann, index)
+            }
+            // `T["a"]["b"]`
+            TsType::TsIndexedAccessType(TsIndexedAccessType {
+                obj_type,
+                index_type,
+                ..
+            }) => self
+                .resolve_indexed_access(obj_type, index_type)
+                .and_then(|inner| self.resolve_indexed_access(&inner, index)),
             TsType::TsTypeRef(TsTypeRef {
                 type_name: TsEntityName::Ident(ident),
                 type_params,
@@ -1179,8 +1197,24 @@ where
                 index_type,
                 ..
             }) => {
-                if let Some(ty) = self.resolve_indexed_access(obj_type, index_type) {
-                    runtime_types.extend(self.infer_runtime_type(&ty));
+                // nothing found under that index: `None`, or a union without members
+                let resolved = self
+                    .resolve_indexed_access(obj_type, index_type)
+                    .filter(|ty| {
+                        !matches!(
+                            ty,
+                            TsType::TsUnionOrIntersectionType(
+                                TsUnionOrIntersectionType::TsUnionType(TsUnionType { types, .. })
+                            ) if types.is_empty()
+                        )
+                    });
+                match resolved {
+                    Some(ty) => runtime_types.extend(self.infer_runtime_type(&ty)),
+                    None => {
+                        // an empty `type: []` would make Vue reject every value, so no runtime
+                        // check is the only safe answer for an access that cannot be resolved
+                        runtime_types.insert(Some(Atom::from(UNKNOWN_TYPE)));
+                    }
                 }
             }
             TsType::TsOptionalType(TsOptionalType { type_ann, .. }) => {
